@@ -34,6 +34,9 @@ type Prop struct {
 	Gen func(w *simrt.Choices, tier string, avoid map[string]bool) Case
 	// Run executes the case as the main task of a simulation.
 	Run func(c *Ctx, cs Case)
+	// Post, if set, runs after the simulation ended normally, OUTSIDE the
+	// bubble (real clock, real goroutines allowed): history checkers.
+	Post func(c *Ctx, cs Case)
 	// Config returns the scheduler limits for the case (may be nil).
 	Config func(cs Case) simrt.Config
 	// BudgetIsViolation: a run ending on a step/simtime budget is a wedge.
@@ -63,6 +66,10 @@ type Ctx struct {
 	viol  *Violation
 	st    *Stats
 	tasks []*simrt.Task
+	// set for Post
+	post         bool
+	schedHash    uint64
+	inconclusive bool
 }
 
 // Failf records a violation (the first one wins) and keeps running; use
@@ -70,7 +77,9 @@ type Ctx struct {
 func (c *Ctx) Failf(class, format string, a ...interface{}) {
 	if c.viol == nil {
 		c.viol = &Violation{Class: c.st.prop + "/" + class, Msg: fmt.Sprintf(format, a...)}
-		c.Sim.Logf("VIOLATION %s: %s", c.viol.Class, c.viol.Msg)
+		if !c.post {
+			c.Sim.Logf("VIOLATION %s: %s", c.viol.Class, c.viol.Msg)
+		}
 	}
 }
 
@@ -78,7 +87,11 @@ func (c *Ctx) Failf(class, format string, a ...interface{}) {
 func (c *Ctx) Failed() bool { return c.viol != nil }
 
 // Logf logs to the run's event log.
-func (c *Ctx) Logf(format string, a ...interface{}) { c.Sim.Logf(format, a...) }
+func (c *Ctx) Logf(format string, a ...interface{}) {
+	if !c.post {
+		c.Sim.Logf(format, a...)
+	}
+}
 
 // Stat adds to an evidence counter.
 func (c *Ctx) Stat(name string, d int64) { c.st.Counters[name] += d }
